@@ -73,14 +73,14 @@ def build_locks(cfg, variant):
                             link=WRAP if kind == 3 else [], tag="locks-" + variant)
 
 
-def build_stress(cfg, variant):
+def build_stress(cfg, variant, force_plain=False):
     """c11 / sim: clang-14 + ThreadSanitizer.  sync: plain gcc -O2 — its plain volatile accesses and
     `__sync_synchronize ()` are not synchronisation ThreadSanitizer understands (reports on the clean tree),
     so only the value oracles (lost update, duplicate ticket, stale message) are used there."""
     files = ATOMIC_SRC[variant] + [f for f in SPIN_SRC[variant] if f not in ATOMIC_SRC[variant]]
     if "pmutex-posix.c" not in files:
         files.append("pmutex-posix.c")
-    if variant == "sync":
+    if variant == "sync" or force_plain:
         return pv.build_harness("stress-" + variant, cfg, ["stress.c"], repo_files=files + BASE, san="plain", opt="-O2",
                                 tag="stress-" + variant), False
     return pv.build_harness("stress-" + variant, cfg, ["stress.c"], repo_files=files + BASE, san="tsan", cc="clang-14",
@@ -112,6 +112,9 @@ def judge_stress(mode, out):
     elif mode == "casinc":
         if len(nums) != 2 or nums[0] != nums[1]:
             return "lost increment through compare-and-exchange: " + out
+    elif mode == "sb":
+        if len(nums) != 3 or nums[0] != 0 or nums[1] != 0:
+            return "store-buffering outcome r1 = r2 = 0 observed although set/get must be full barriers: " + out
     elif mode == "mp":
         if len(nums) != 2 or nums[0] != 0:
             return "stale message read after the flag: " + out
@@ -125,7 +128,8 @@ def stress_campaign(chk, cfg, prop, plan, budget_s, label):
     runs = []
     for variant, mode, args in plan:
         try:
-            exe, tsan = build_stress(cfg, variant)
+            # the store-buffering litmus needs the real hardware reordering: uninstrumented -O2 build
+            exe, tsan = build_stress(cfg, variant, force_plain=(mode == "sb"))
         except pv.BuildError as e:
             runs.append({"variant": variant, "mode": mode, "result": "build failed"})
             chk.violation(str(e), "%s: stress build of the %s back-end failed" % (prop, variant), no_input=True, suffix="txt")
